@@ -26,7 +26,8 @@ RULE = ("gain vectors of length 1..16 drawn from classes {log-uniform over 12 "
         "Class 'wide': one link of order 1 next to links 8-20 decades weaker at "
         "a noise level that still makes them worth filling. "
         "The in-situ cases sweep power and noise on ONE BlockDiagonalizer object (1-3 rounds). "
-        "One direct case in 16 has 64-1000 channels; the in-situ cases also use EnhancedBD / WhiteningBD objects (inherited entry point) and the module-level function in an SNR sweep. ")
+        "One direct case in 16 has 64-1000 channels; the in-situ cases also use EnhancedBD / WhiteningBD objects (inherited entry point) and the module-level function in an SNR sweep. "
+        "The returned block-diagonalisation precoder is checked for power sitting on the stronger stream. ")
 ASSUMPTIONS = ["tolerances are backward-error bounds 64 n eps (level + inverse "
                "gain of the active channels)"]
 EPS = np.finfo(float).eps
@@ -286,10 +287,39 @@ def case_insitu(ctx, rng, idx):
             STATE["calls"] = []
             d = {"K": K, "nant": nant, "Pu": Pu, "noise": noise, "round": rnd, "entry": entry}
             if entry == "function":
-                okc, _ = ctx.call("matches-reference", BD.block_diagonalize, H, K, Pu, noise,
-                                  detail=d)
+                okc, sol = ctx.call("matches-reference", BD.block_diagonalize, H, K, Pu, noise,
+                                    detail=d)
             else:
-                okc, _ = ctx.call("matches-reference", bd.block_diagonalize, H, detail=d)
+                okc, sol = ctx.call("matches-reference", bd.block_diagonalize, H, detail=d)
+            if okc:
+                # the allocation must sit on the streams it was computed for: with one
+                # common water level, a stream with a larger gain never gets less
+                # power than one with a smaller gain (whatever common scaling follows)
+                try:
+                    Ms = np.asarray(sol[1])
+                    pw, gn = [], []
+                    for col in range(Ms.shape[1]):
+                        m = Ms[:, col]
+                        pcol = float(np.vdot(m, m).real)
+                        if pcol > 0:
+                            k_u = col // nant
+                            hk = H[k_u * nant:(k_u + 1) * nant] @ m
+                            pw.append(pcol)
+                            gn.append(float(np.vdot(hk, hk).real) / pcol)
+                    pw, gn = np.array(pw), np.array(gn)
+                    bad = 0
+                    for i in range(len(pw)):
+                        for j in range(i + 1, len(pw)):
+                            if (pw[i] - pw[j]) * (gn[i] - gn[j]) < -1e-9 * (pw.max() * gn.max()) and \
+                                    abs(gn[i] - gn[j]) > 1e-6 * gn.max() and \
+                                    abs(pw[i] - pw[j]) > 1e-6 * pw.max():
+                                bad += 1
+                    ctx.ev("no-better-allocation", bad == 0,
+                           cls="insitu:power-on-the-wrong-stream",
+                           detail={**d, "powers": pw, "stream_gains": gn})
+                except Exception as e:      # noqa: BLE001 - malformed solution
+                    ctx.ev("no-better-allocation", False, cls="insitu:solution-malformed",
+                           detail={**d, "exc": repr(e)})
             calls = STATE["calls"]
             if not okc:
                 break
